@@ -74,19 +74,19 @@ pub fn profile(name: &str) -> Profile {
         err_returns: false,
     };
     match name {
-        "C01" => Profile { name: "C01", w_token: 8, reuse_bias: 4, kinds: [4, 3, 3, 4], ..base },
+        "C01" => Profile { name: "C01", w_token: 8, reuse_bias: 4, kinds: [4, 3, 3, 4], err_returns: true, ..base },
         "C02" => Profile { name: "C02", w_cause: 12, max_sources: 8, kinds: [3, 3, 2, 6], ..base },
         "C03" => Profile { name: "C03", kinds: [10, 0, 1, 1], w_cause: 12, ..base },
         "C04" => Profile { name: "C04", kinds: [1, 10, 1, 0], w_cause: 14, ..base },
         "C05" => Profile { name: "C05", kinds: [2, 1, 10, 1], w_advance: 6, err_returns: true, ..base },
         "C06" => Profile { name: "C06", w_token: 9, w_insert: 7, reuse_bias: 3, ..base },
-        "C07" => Profile { name: "C07", w_token: 10, ..base },
+        "C07" => Profile { name: "C07", w_token: 10, err_returns: true, ..base },
         "C08" => Profile { name: "C08", script_len: (1, 5), script_ops: (1, 6), w_idle: 4, ..base },
         "C09" => Profile { name: "C09", kinds: [2, 1, 2, 8], err_returns: true, script_len: (1, 5), ..base },
         "C12" => Profile { name: "C12", kinds: [2, 1, 8, 1], w_dispatch: 10, w_advance: 5, w_cause: 3, ..base },
         "C13" => Profile { name: "C13", w_idle: 10, err_returns: true, ..base },
-        "C15" => Profile { name: "C15", faults: true, scripted_faults: true, natural_faults: true, err_returns: true, kinds: [3, 2, 3, 6], ..base },
-        "C16" => Profile { name: "C16", kinds: [2, 2, 0, 10], table_every: 1, w_token: 8, ..base },
+        "C15" => Profile { name: "C15", faults: false, scripted_faults: true, natural_faults: true, err_returns: true, kinds: [3, 2, 3, 6], ..base },
+        "C16" => Profile { name: "C16", kinds: [2, 2, 0, 10], table_every: 1, w_token: 8, err_returns: true, ..base },
         _ => base,
     }
 }
